@@ -45,6 +45,8 @@ STMT_ERRORS = [
     ("param_prop_spread", "fn g_ps({a..}) {\n    return 1\n}"), ("param_item_spread", "fn g_is([a..]) {\n    return 1\n}"),
     ("param_index", "fn g_pi(ok_list[0]) {\n    return 1\n}"), ("param_range_index", "fn g_pr(ok_list[0:1]) {\n    return 1\n}"),
     ("param_prop", "fn g_pp(ok_obj.a) {\n    return 1\n}"), ("prop_name_bad_utf8", 'v_bad := ok_obj["é"[0]]'),
+    ("destructure_into_source_oob", "[ok_list[5], ok_list[0]] = ok_list"), ("destructure_into_source_type", '[ok_list[0], ok_list["x"]] = ok_list'),
+
     ("prop_name_bad_utf8_lit", 'v_bad2 := {"é"[1:2]: 1}'), ("destruct_key_bad_utf8", '{"é"[0]: q9} := ok_obj'),
 ]
 
@@ -68,8 +70,17 @@ POSITIONS = {
     "call_callee": lambda e: f"ident({e})(1)" if e[0].isalpha() or e[0] in "([{" else None,
 }
 
+# a slice expression evaluates its start, then its end, then the sliced value (DESIGN.md Appendix A; C11 `eval_slice`): what
+# its parts print before the failure belongs to stdout
+SLICE_ERRORS = [
+    ("slice_end_fails", "v_sl := tr_text()[tr_from():zz_undefined]", "from\n"),
+    ("slice_value_undefined", "v_sl := zz_undefined[tr_from():tr_from()]", "from\nfrom\n"),
+    ("slice_start_fails", "v_sl := tr_text()[1():tr_from()]", ""),
+    ("slice_out_of_range", "v_sl := tr_text()[tr_from():9]", "from\ntext\n"),
+]
+
 PRELUDE = ('fn two_params(a, b) {\n    return a\n}\nfn rest_params(a, ..r) {\n    return a\n}\nfn ident(x) {\n    return x\n}\n'
-           'fn ok_fn() {\n    return 1\n}\nok_list := [1, 2, 3]\nok_obj := {"a": 1}\nok_int := 1\nok_acc := 0\nok_nested := [[1]]\n'
+           'fn ok_fn() {\n    return 1\n}\nok_list := [1, 2, 3]\nok_obj := {"a": 1}\nok_int := 1\nok_acc := 0\nok_nested := [[1]]\nfn tr_text() {\n    print("text")\n    return "abcdef"\n}\nfn tr_from() {\n    print("from")\n    return 1\n}\n'
            'obj_with_print := {"p": print}\nprint("p0")\n')
 
 FIRST = re.compile(r"\At\.sd:(\d+):(\d+): (?:in '([^'\n]+)': )?([^\n]+)\n")
@@ -241,6 +252,10 @@ def run(ctx, model_ok):
                 if ctx.tier != "thorough" and (depth + len(ck) + len(name)) % 2 != 0 and not (depth <= 1 and ck == "plain"):
                     continue
                 cases.append(((name, "stmt", depth, ck),) + wrap(st, depth, ck))
+    for name, st, printed in SLICE_ERRORS:
+        for depth in (0, 1, 2):
+            src, out, tr, fi = wrap(st, depth, "plain")
+            cases.append(((name, "stmt", depth, "plain"), src, out + printed, tr, fi))
     # the call chain written with every call style: the trace must name the same callers whatever position the calls are in
     for style in CALL_STYLES:
         if style == "stmt":
